@@ -29,8 +29,11 @@ type Ctx struct {
 	// fieldBufBad caches fieldBufferBad (escape rule)
 	fieldBufBad map[*types.Var]string
 	// simIdx caches, per function, which index expressions the effect normal form proves in range
-	simIdx map[*ast.FuncDecl]map[*ast.IndexExpr]bool
-	Meta   *metaSchemas
+	scopeHelperMemo map[*types.Func]bool
+	synthObjs       []types.Object // objects the identifiers of a synthetic goal expression denote (propEntails)
+	simIdx          map[*ast.FuncDecl]map[*ast.IndexExpr]bool
+	simMapStore     map[*ast.FuncDecl]map[*ast.IndexExpr]bool
+	Meta            *metaSchemas
 
 	decls    map[*types.Func]*ast.FuncDecl
 	obs      []*Obligation
